@@ -729,6 +729,22 @@ def _cases(rng, n):
                        for _ in range(rng.randint(0, 3)))
         k, v = call(qf.parse_frames, pay, None)
         out.append(("parse_frames", _b(pay), (".ok [" + ", ".join(_frame(f) for f in v) + "]") if k == "ok" else f".error .{v}"))
+        # cipher_suite_parser.py: keys of the table and ids that are not
+        csp = importlib.import_module("tlexport.cipher_suite_parser")
+        sid = rng.choice(list(csp.cipher_suites)) if rng.random() < 0.85 else rb(0, 3)
+        k, v = call(csp.split_cipher_suite, sid)
+
+        def cname(c):
+            return "[" + ", ".join(str(ord(ch)) for ch in ("None" if c is None else c.__name__)) + "]"
+
+        def sval(x):
+            if isinstance(x, tuple):
+                return f"TLX.CipherSuite.Val.tup {cname(x[0])} {x[1]}"
+            if isinstance(x, int):
+                return f"TLX.CipherSuite.Val.int {x}"
+            return f"TLX.CipherSuite.Val.cls {cname(x)}"
+        out.append(("split_cipher_suite", _b(sid), ".ok none" if v is None else
+                    ".ok (some [" + ", ".join("([" + ", ".join(str(ord(ch)) for ch in kk) + "], " + sval(vv) + ")" for kk, vv in v.items()) + "])"))
         # checksums.py
         cks = importlib.import_module("tlexport.checksums")
         arr = rb(0, 9) if rng.random() < 0.7 else bytes([0xff]) * rng.randint(0, 9)
